@@ -366,6 +366,12 @@ fn list(base: &Path, p: &Path, depth: usize, cfg: &WalkCfg, root_dev: Option<u64
     } else {
         lmd
     };
+    // Both walkers resolve a followed link (and report a dangling link or a
+    // cycle as an error) before any filter sees the entry.
+    if md.is_dir() && follow && depth > 0 && ancestors.iter().any(|a| same_file(a, p)) {
+        out.push(Seen::Err("loop".into(), relp));
+        return;
+    }
     if depth > 0 {
         if let Some(ch) = cfg.filter_char {
             if p.file_name().unwrap().to_string_lossy().contains(ch) {
@@ -376,13 +382,6 @@ fn list(base: &Path, p: &Path, depth: usize, cfg: &WalkCfg, root_dev: Option<u64
             if !md.is_dir() && md.len() > max {
                 return;
             }
-        }
-    }
-    if md.is_dir() && follow && depth > 0 {
-        if let Some(a) = ancestors.iter().find(|a| same_file(a, p)) {
-            let _ = a;
-            out.push(Seen::Err("loop".into(), relp));
-            return;
         }
     }
     out.push(Seen::Ok(relp));
